@@ -1,10 +1,11 @@
 package rules
 
 import (
-	"go/constant"
 	"fmt"
+	"go/constant"
 	"go/token"
 	"go/types"
+	"os"
 	"sort"
 	"strings"
 
@@ -839,34 +840,8 @@ func ruleParserRemovals(w *core.World, r *core.Report) {
 		r.Unresolved("parseAofCommand/loop", "decode loop not found")
 		return
 	}
-	// the loop-carried bypass flag may only come from FilterDb
 	bypassOK := func(ph *ssa.Phi) bool {
-		ok := true
-		seen := map[ssa.Value]bool{}
-		var rec func(v ssa.Value)
-		rec = func(v ssa.Value) {
-			if seen[v] {
-				return
-			}
-			seen[v] = true
-			switch x := v.(type) {
-			case *ssa.Phi:
-				for _, e := range x.Edges {
-					rec(e)
-				}
-			case *ssa.Const:
-				if b, isB := core.ConstBool(x); !isB || b {
-					ok = false
-				}
-			case *ssa.Call:
-				if !core.MatchName(core.ResolveCall(x).Name, "*RedisKeyFilter).FilterDb") {
-					ok = false
-				}
-			default:
-				ok = false
-			}
-		}
-		rec(ph)
+		ok, _ := flagOnlyFromFilterDb(w, ph)
 		return ok
 	}
 	drops, sends := 0, 0
@@ -938,6 +913,12 @@ func ruleParserRemovals(w *core.World, r *core.Report) {
 		}
 		lastPos := lastDecisionPos(p)
 		key := w.Pos(lastPos)
+		if os.Getenv("GC_DEBUG") == "R01.5" {
+			for _, fct := range p.Conds {
+				fmt.Fprintf(os.Stderr, "DEBUG %s %v := %v -> %v\n", w.Pos(fct.Cond.Pos()), fct.Val, fct.Cond, p.Resolve(fct.Cond))
+			}
+			fmt.Fprintln(os.Stderr, "DEBUG ----")
+		}
 		if _, dup := bad[key]; !dup {
 			bad[key] = lastPos
 		}
@@ -1136,15 +1117,41 @@ func ruleNoRouteTable(w *core.World, r *core.Report) {
 	// inserted unconditionally by NewRedisOutput
 	if f := fn(w, r, "syncer.NewRedisOutput"); f != nil {
 		found := false
-		for _, s := range core.SitesNamed(f, false, "*RedisKeyFilter).InsertCmdBlackList") {
+		var sites []core.Site
+		for _, g := range reachableFuncs(f) {
+			if g != f && !(core.Transparent != nil && core.Transparent(g)) {
+				continue
+			}
+			for _, s := range core.SitesNamed(g, false, "*RedisKeyFilter).InsertCmdBlackList") {
+				if s.Instr.Parent() == g {
+					sites = append(sites, s)
+				}
+			}
+		}
+		for _, s := range sites {
 			a := s.Args()
 			if len(a) < 1 {
 				continue
 			}
-			isTable := false
-			if ld, ok := a[0].(*ssa.UnOp); ok && ld.Op == token.MUL {
-				if g, ok := ld.X.(*ssa.Global); ok && g.Name() == "NoRouteCmds" {
-					isTable = true
+			// the table itself, or an element of a list of lists that contains it
+			fromTable := func(v ssa.Value) bool {
+				return core.DependsOn(v, func(x ssa.Value) bool {
+					ld, ok := x.(*ssa.UnOp)
+					if !ok || ld.Op != token.MUL {
+						return false
+					}
+					g, ok := ld.X.(*ssa.Global)
+					return ok && g.Name() == "NoRouteCmds"
+				})
+			}
+			// ... whichever way the list was chosen: a list that is the table only when the operator configured
+			// none does not install it
+			isTable := fromTable(a[0])
+			if ph, isPhi := core.Unwrap(a[0]).(*ssa.Phi); isPhi {
+				for _, e := range ph.Edges {
+					if !fromTable(e) {
+						isTable = false
+					}
 				}
 			}
 			if !isTable {
@@ -1152,7 +1159,7 @@ func ruleNoRouteTable(w *core.World, r *core.Report) {
 			}
 			found = true
 			ci, _ := core.ConstBool(a[1])
-			r.Check(len(core.FactsAt(s.Instr.Block())) == 0 && ci, "NewRedisOutput/insert-NoRouteCmds", s.Pos(), "the non-replayable table must be inserted unconditionally and case-insensitively")
+			r.Check(unconditionalIn(w, f, s.Instr, 3) && ci, "NewRedisOutput/insert-NoRouteCmds", s.Pos(), "the non-replayable table must be inserted unconditionally and case-insensitively")
 		}
 		if !found {
 			r.Fail("NewRedisOutput/insert-NoRouteCmds", f.Pos(), "the non-replayable command table is not installed in the output filter")
@@ -1217,24 +1224,55 @@ func ruleSelectDBBody(w *core.World, r *core.Report) {
 		cp = p
 		fail := func(m string) { bad, badPos = m, ret.Pos() }
 		r0, r1 := p.Resolve(ret.Results[0]), p.Resolve(ret.Results[1])
+		var x ssa.Value
 		if b, isC := core.ConstBool(r1); isC {
-			if b || !p.Holds(token.EQL, isOrg, isConstInt(-1)) {
-				fail("'no database change' is answered on a path where the source database is set: a SELECT of the source is swallowed")
+			if !b && p.Holds(token.EQL, isOrg, isConstInt(-1)) {
+				return // no source database: nothing changes
 			}
-			return
-		}
-		cmp, ok := core.AsCmp(r1, true)
-		if !ok || cmp.Op != token.NEQ {
-			fail("the changed flag must be target != current")
-			return
-		}
-		x, y := p.Resolve(cmp.X), p.Resolve(cmp.Y)
-		if isCur(x) {
-			x, y = y, x
-		}
-		if !isCur(y) || core.Unwrap(x) != core.Unwrap(r0) {
-			fail("the changed flag must compare the returned target database with the current one")
-			return
+			// the flag is a constant on this path: the path itself must have compared the returned target
+			// database with the current one, with the matching outcome
+			want := token.EQL
+			if b {
+				want = token.NEQ
+			}
+			okCmp := false
+			for _, fct := range p.Conds {
+				c, isCmp := core.FactCmp(fct)
+				if !isCmp || c.Op != want {
+					continue
+				}
+				cx, cy := p.Resolve(c.X), p.Resolve(c.Y)
+				if isCur(cx) {
+					cx, cy = cy, cx
+				}
+				if isCur(cy) && core.Unwrap(cx) == core.Unwrap(r0) {
+					okCmp = true
+				}
+			}
+			if !okCmp {
+				if b {
+					fail("a database change is answered on a path that did not find the returned target database different from the current one")
+				} else {
+					fail("'no database change' is answered on a path where the source database is set: a SELECT of the source is swallowed")
+				}
+				return
+			}
+			x = r0
+		} else {
+			cmp, ok := core.AsCmp(r1, true)
+			if !ok || cmp.Op != token.NEQ {
+				fail("the changed flag must be target != current")
+				return
+			}
+			var y ssa.Value
+			x, y = p.Resolve(cmp.X), p.Resolve(cmp.Y)
+			if isCur(x) {
+				x, y = y, x
+			}
+			if !isCur(y) || core.Unwrap(x) != core.Unwrap(r0) {
+				fail("the changed flag must compare the returned target database with the current one")
+				return
+			}
 		}
 		switch {
 		case isTargetDb(x):
@@ -1307,6 +1345,36 @@ func ruleDbTracking(w *core.World, r *core.Report) {
 		}
 		// (a)+(b) definitions of the tracked variable
 		bad := ""
+		var trackedFields []*ssa.FieldAddr
+		// the value selectDB returned, or the tracked record field read back after that value was stored in it
+		isTracked := func(v ssa.Value) bool {
+			if isRes0(v) {
+				return true
+			}
+			u, ok := core.Unwrap(v).(*ssa.UnOp)
+			if !ok || u.Op != token.MUL {
+				return false
+			}
+			fa, ok := u.X.(*ssa.FieldAddr)
+			if !ok {
+				return false
+			}
+			for _, tf := range trackedFields {
+				if tf.Field != fa.Field || !types.Identical(recordOf(tf), recordOf(fa)) {
+					continue
+				}
+				for _, in := range core.OwnInstrs(u.Parent()) {
+					st, isSt := in.(*ssa.Store)
+					if !isSt || !isRes0(st.Val) {
+						continue
+					}
+					if fa2, isFa := st.Addr.(*ssa.FieldAddr); isFa && fa2.Field == fa.Field && types.Identical(recordOf(fa2), recordOf(fa)) && core.Dominates(st, u) {
+						return true
+					}
+				}
+			}
+			return false
+		}
 		seen := map[ssa.Value]bool{}
 		var visit func(v ssa.Value)
 		visit = func(v ssa.Value) {
@@ -1325,6 +1393,21 @@ func ruleDbTracking(w *core.World, r *core.Report) {
 				return
 			}
 			if u, ok := v.(*ssa.UnOp); ok && u.Op == token.MUL {
+				// the variable is a field of a record the loop carries from entry to entry: every store into that
+				// field, anywhere, and the zero value of a record built without it
+				if fa, isFa := u.X.(*ssa.FieldAddr); isFa {
+					if _, isNamed := recordOf(fa).(*types.Named); isNamed {
+						trackedFields = append(trackedFields, fa)
+						vals, known := recordFieldDefinitions(w, fa)
+						if !known {
+							bad = "the record holding the tracked database is replaced as a whole"
+						}
+						for _, sv := range vals {
+							visit(sv)
+						}
+						return
+					}
+				}
 				if a := core.Cell(u.X); a != nil { // a variable shared with a closure: all of its stores
 					for _, st := range core.CellStores(a) {
 						visit(st.Val)
@@ -1462,7 +1545,7 @@ func ruleDbTracking(w *core.World, r *core.Report) {
 					return false
 				}
 				for _, a := range s.Args() {
-					if core.DependsOn(a, isRes0) {
+					if core.DependsOn(a, isTracked) {
 						emits = append(emits, s)
 						return true
 					}
@@ -1488,10 +1571,23 @@ func ruleDbTracking(w *core.World, r *core.Report) {
 						okFail = false
 					}
 				}
-				for _, cs := range callSitesOf(w, home) {
-					if cs.Parent() == f && !failureReturned(f, core.ResolveCall(cs.(ssa.CallInstruction))) {
+				// ... through every helper between the switch and the loop
+				for cur, depth := home, 0; cur != f && depth < 4; depth++ {
+					sites := callSitesOf(w, cur)
+					if len(sites) != 1 {
+						okFail = okFail && len(sites) > 0 && cur == home
+						for _, cs := range sites {
+							if cs.Parent() == f && !failureReturned(f, core.ResolveCall(cs.(ssa.CallInstruction))) {
+								okFail = false
+							}
+						}
+						break
+					}
+					cs := sites[0]
+					if !failureReturned(cs.Parent(), core.ResolveCall(cs.(ssa.CallInstruction))) {
 						okFail = false
 					}
+					cur = cs.Parent()
 				}
 			}
 			r.Check(esc == nil && len(emits) > 0 && okFail, short+"/db-switch-emitted", sd.Pos(), "when selectDB reports a change the switch must reach the target (with selectDB's database) before the next entry is handled, and a failed switch must end the replay; otherwise the tracked database and the connection disagree and later keys land in the wrong database (escape=%v, emissions=%d, failure ends replay=%v)", esc != nil, len(emits), okFail)
@@ -1686,4 +1782,136 @@ func ruleSelectNeverForwardedRaw(w *core.World, r *core.Report) {
 		return
 	}
 	r.Check(bad == "" && selects > 0, "parseAofCommand/select-not-forwarded-raw", pos, "%s (select paths=%d, of them reaching the generic forwarding=%d)", bad, selects, n)
+}
+
+// flagOnlyFromFilterDb: the (loop-carried) bypass flag may only come from FilterDb or be the constant false; it may
+// travel through the fields of a private record and through the parameters of helpers. calls counts the FilterDb
+// results among its sources.
+func flagOnlyFromFilterDb(w *core.World, ph ssa.Value) (bool, int) {
+	calls := 0
+	ok := true
+	seen := map[ssa.Value]bool{}
+	var rec func(v ssa.Value)
+	rec = func(v ssa.Value) {
+		if seen[v] {
+			return
+		}
+		seen[v] = true
+		switch x := v.(type) {
+		case *ssa.Phi:
+			for _, e := range x.Edges {
+				rec(e)
+			}
+		case *ssa.Const:
+			if b, isB := core.ConstBool(x); !isB || b {
+				ok = false
+			}
+		case *ssa.Call:
+			if !core.MatchName(core.ResolveCall(x).Name, "*RedisKeyFilter).FilterDb") {
+				ok = false
+			} else {
+				calls++
+			}
+		case *ssa.UnOp:
+			// the flag travels in a record the filtering helper returns
+			fa, isFa := x.X.(*ssa.FieldAddr)
+			a, isA := (ssa.Value)(nil), false
+			if isFa && x.Op == token.MUL {
+				a, isA = fa.X.(*ssa.Alloc)
+			}
+			if !isA {
+				ok = false
+				return
+			}
+			vals, known := core.RecordFieldSources(a.(*ssa.Alloc), fa.Field)
+			if !known {
+				ok = false
+			}
+			for _, sv := range vals {
+				rec(sv)
+			}
+		case *ssa.Parameter:
+			sites := callSitesOf(w, x.Parent())
+			if len(sites) == 0 {
+				ok = false
+			}
+			for _, s := range sites {
+				idx := -1
+				for i, prm := range x.Parent().Params {
+					if prm == x {
+						idx = i
+					}
+				}
+				ci, isCall := s.(ssa.CallInstruction)
+				if !isCall || idx < 0 || idx >= len(ci.Common().Args) || ci.Common().IsInvoke() {
+					ok = false
+					continue
+				}
+				rec(ci.Common().Args[idx])
+			}
+		default:
+			ok = false
+		}
+	}
+	rec(ph)
+	return ok, calls
+}
+
+// recordOf: the (named) struct type a field address points into.
+func recordOf(fa *ssa.FieldAddr) types.Type {
+	if pt, ok := fa.X.Type().Underlying().(*types.Pointer); ok {
+		return pt.Elem()
+	}
+	return fa.X.Type()
+}
+
+// recordFieldDefinitions: every value stored, anywhere in the program, into the field fa names (same record
+// type, same field), plus the zero value when a record of that type is built without the field. known is false
+// when a record of that type is overwritten as a whole somewhere.
+func recordFieldDefinitions(w *core.World, fa *ssa.FieldAddr) (vals []ssa.Value, known bool) {
+	rt := recordOf(fa)
+	known = true
+	for _, g := range w.Funcs() {
+		for _, in := range core.OwnInstrs(g) {
+			switch x := in.(type) {
+			case *ssa.Store:
+				if fa2, ok := x.Addr.(*ssa.FieldAddr); ok {
+					if fa2.Field == fa.Field && types.Identical(recordOf(fa2), rt) {
+						vals = append(vals, x.Val)
+					}
+					continue
+				}
+				if pt, ok := x.Addr.Type().Underlying().(*types.Pointer); ok && types.Identical(pt.Elem(), rt) {
+					known = false
+				}
+			case *ssa.Alloc:
+				pt, ok := x.Type().Underlying().(*types.Pointer)
+				if !ok || !types.Identical(pt.Elem(), rt) {
+					continue
+				}
+				set := false
+				if refs := x.Referrers(); refs != nil {
+					for _, rf := range *refs {
+						if fa2, ok := rf.(*ssa.FieldAddr); ok && fa2.Field == fa.Field {
+							for _, rr := range *fa2.Referrers() {
+								if st, isSt := rr.(*ssa.Store); isSt && st.Addr == ssa.Value(fa2) {
+									set = true
+								}
+							}
+						}
+					}
+				}
+				if !set {
+					if st, ok := rt.Underlying().(*types.Struct); ok && fa.Field < st.NumFields() {
+						if b, isB := st.Field(fa.Field).Type().Underlying().(*types.Basic); isB && b.Info()&types.IsInteger != 0 {
+							vals = append(vals, ssa.NewConst(constant.MakeInt64(0), st.Field(fa.Field).Type()))
+							continue
+						}
+					}
+					known = false
+				}
+			}
+		}
+	}
+	return vals, known
 }
